@@ -88,6 +88,11 @@ fn main() {
     if args.len() >= 4 && args[2] == "--replay" {
         std::process::exit(run::replay_file(check.as_ref(), Path::new(&args[3])));
     }
+    if args.len() >= 3 && args[2] == "hitrate" {
+        let thorough = args.get(3).map(|s| s == "thorough").unwrap_or(false);
+        let cfg = RunConfig { thorough, seed, threads, scale };
+        std::process::exit(run::hitrate(check.as_ref(), &cfg));
+    }
     let mut tier = args.get(2).cloned().unwrap_or_else(|| "quick".to_string());
     if let Ok(t) = std::env::var("VERIF_TIER") {
         if t == "quick" || t == "thorough" {
